@@ -78,7 +78,8 @@ pub fn alphabet(m: &FormatModel, o: &OptModel, with_sep: bool) -> Vec<u8> {
     if with_sep && m.digit_separator != 0 {
         a.push(m.digit_separator);
     }
-    for c in [b'n', b'a', b'N', b'i', b'f', b' ', 0x80] {
+    // a non-ASCII byte that a careless case fold or digit test maps onto the largest digit
+    for c in [b'n', b'a', b'N', b'i', b'f', b' ', top | 0x80] {
         a.push(c);
     }
     let mut seen = std::collections::HashSet::new();
@@ -283,7 +284,7 @@ pub fn jobs(groups: &[&str], want_sep: bool) -> Vec<Job> {
 pub fn run(ctx: &Ctx, rep: &mut Report) {
     rep.rule = "cases: bounded-exhaustive enumeration of every string up to length L (quick 4, thorough 5) over a per-format number \
         alphabet (signs, digits 0/1/top digit in both cases, decimal point, exponent character in both cases, base prefix/suffix \
-        letters in both cases, the letters n a N i f, a space and byte 0x80) for every valid separator-free format of the syntax, \
+        letters in both cases, the letters n a N i f, a space and the largest digit with its high bit set) for every valid separator-free format of the syntax, \
         prebuilt, write and core groups x {f64, f32, i32/u64}; plus long-digit / large-exponent accepted inputs. Oracle: the \
         reference grammar (harness/vcore/refparse.rs, validated against the 216 hidden doc TEST assertions) for acceptance, exact \
         rounding / exact integer value for accepted inputs; STANDARD also against str::parse. non-trivial = accepted by either \
